@@ -74,7 +74,18 @@ func (c *c01Case) encodeDirect() (out []byte, err error, panicked any) {
 			f.AddTo(enc)
 		}
 	}
-	buf, e := enc.EncodeEntry(c.ent, fieldsOf(c.site))
+	if c.cs.reflEnc == "html" || c.cs.reflEnc == "nohtml" {
+		neighbourUsesIndentingEncoder(c.cs.cfg, false)
+		neighbourUsesIndentingEncoder(c.cs.cfg, true)
+	}
+	// the caller's field slice belongs to the caller (a tee hands the same slice to its next core, applications
+	// reuse slices): an encoder reads it and leaves it as it was
+	fs := fieldsOf(c.site)
+	snap := fieldsSnap(fs)
+	buf, e := enc.EncodeEntry(c.ent, fs)
+	if after := fieldsSnap(fs); after != snap {
+		return nil, fmt.Errorf("EncodeEntry modified the caller's field slice:\n before %s\n after  %s", clipS(snap), clipS(after)), nil
+	}
 	if e != nil {
 		return nil, e, nil
 	}
